@@ -344,6 +344,16 @@ func (e *cpEngine) external(q string, args []cpVal, resT types.Type) (cpVal, boo
 		return s.V, ok
 	}
 	switch q {
+	case "reflect.TypeOf":
+		// the type of a statically typed value: a model built from go/types (kind, name, size, element and field
+		// types), one object per type so that two calls for the same type compare equal
+		if len(args) == 1 {
+			if iv, ok := args[0].(cpIface); ok && iv.T != nil {
+				if rt := cpRTypeFromGo(e.P, iv.T, 0); rt != nil {
+					return rt, true
+				}
+			}
+		}
 	case "(reflect.StructField).IsExported":
 		if len(args) == 1 {
 			if pp, ok := cpFieldByName(args[0], "PkgPath"); ok && pp != nil {
@@ -468,4 +478,72 @@ func cpRTypeOfKind(k reflect.Kind, byteElem bool) *cpRType {
 		t.ID, t.Name, t.PkgPath = "fx.Rec", "Rec", "example.com/fx-pkg"
 	}
 	return t
+}
+
+var cpGoTypes = map[*Program]map[string]*cpRType{}
+
+// cpRTypeFromGo builds (once per type) the model of the reflect.Type of a go/types type.
+func cpRTypeFromGo(P *Program, t types.Type, d int) *cpRType {
+	if d > 6 || t == nil {
+		return nil
+	}
+	if _, isTP := types.Unalias(t).(*types.TypeParam); isTP {
+		return nil
+	}
+	m := cpGoTypes[P]
+	if m == nil {
+		m = map[string]*cpRType{}
+		cpGoTypes[P] = m
+	}
+	key := types.TypeString(t, nil)
+	if rt, ok := m[key]; ok {
+		return rt
+	}
+	rt := &cpRType{ID: key, Go: t, Size: P.Sizes.Sizeof(t)}
+	m[key] = rt
+	if n, ok := types.Unalias(t).(*types.Named); ok {
+		rt.Name = n.Obj().Name()
+		if n.Obj().Pkg() != nil {
+			rt.PkgPath = n.Obj().Pkg().Path()
+		}
+	}
+	switch u := t.Underlying().(type) {
+	case *types.Basic:
+		k := map[types.BasicKind]reflect.Kind{types.Bool: reflect.Bool, types.Int: reflect.Int, types.Int8: reflect.Int8, types.Int16: reflect.Int16, types.Int32: reflect.Int32, types.Int64: reflect.Int64,
+			types.Uint: reflect.Uint, types.Uint8: reflect.Uint8, types.Uint16: reflect.Uint16, types.Uint32: reflect.Uint32, types.Uint64: reflect.Uint64, types.Uintptr: reflect.Uintptr,
+			types.Float32: reflect.Float32, types.Float64: reflect.Float64, types.Complex64: reflect.Complex64, types.Complex128: reflect.Complex128, types.String: reflect.String, types.UnsafePointer: reflect.UnsafePointer}[u.Kind()]
+		rt.Kind = int64(k)
+		if rt.Name == "" {
+			rt.Name = u.Name()
+		}
+	case *types.Pointer:
+		rt.Kind, rt.Elem = int64(reflect.Ptr), cpRTypeFromGo(P, u.Elem(), d+1)
+	case *types.Slice:
+		rt.Kind, rt.Elem = int64(reflect.Slice), cpRTypeFromGo(P, u.Elem(), d+1)
+	case *types.Array:
+		rt.Kind, rt.Elem = int64(reflect.Array), cpRTypeFromGo(P, u.Elem(), d+1)
+	case *types.Map:
+		rt.Kind, rt.Elem, rt.Key = int64(reflect.Map), cpRTypeFromGo(P, u.Elem(), d+1), cpRTypeFromGo(P, u.Key(), d+1)
+	case *types.Chan:
+		rt.Kind, rt.Elem = int64(reflect.Chan), cpRTypeFromGo(P, u.Elem(), d+1)
+	case *types.Signature:
+		rt.Kind = int64(reflect.Func)
+	case *types.Interface:
+		rt.Kind = int64(reflect.Interface)
+	case *types.Struct:
+		rt.Kind = int64(reflect.Struct)
+		var fs []*types.Var
+		for i := 0; i < u.NumFields(); i++ {
+			fs = append(fs, u.Field(i))
+		}
+		offs := P.Sizes.Offsetsof(fs)
+		for i, f := range fs {
+			rf := cpRField{Name: f.Name(), Tag: u.Tag(i), Type: cpRTypeFromGo(P, f.Type(), d+1), Offset: offs[i], Anonymous: f.Embedded()}
+			if !f.Exported() && f.Pkg() != nil {
+				rf.PkgPath = f.Pkg().Path()
+			}
+			rt.Fields = append(rt.Fields, rf)
+		}
+	}
+	return rt
 }
